@@ -411,6 +411,7 @@ func Run(sc *Scenario) (res *Result) {
 		user = sc.User
 	}
 	ws := &wireState{flows: map[string]*flow{}, sidIdx: map[uint32]int{}, hashed: refcodec.HashedPassword(user, Pass)}
+	hintUser := user
 	udp := sc.Transport == "udp"
 	ws.udp = udp
 	ws.fixed = map[string][][]byte{}
@@ -462,6 +463,10 @@ func Run(sc *Scenario) (res *Result) {
 			ws.mu.Lock()
 			e := ws.describe(ep, seg)
 			ws.mu.Unlock()
+			if ep == "C" && len(sc.Tampers) == 0 && !refcodec.HintMatches(hintUser, seg.Nonce) {
+				// docs/protocol.md: the last 4 nonce bytes of what a client sends are SHA-256(user || nonce[:16])[:4]
+				e.Ok, e.Err = false, "undecodable: user hint in the nonce is not the documented one"
+			}
 			e.Fate = "deliver"
 			for _, r := range sc.Faults {
 				if matchRule(r, e) {
@@ -554,6 +559,7 @@ func Run(sc *Scenario) (res *Result) {
 	} else {
 		serverAddr = &net.TCPAddr{IP: net.IPv4(10, 1, 0, 1), Port: 7000}
 		decs := map[string]*refcodec.StreamDecoder{}
+		hintChecked := map[string]bool{}
 		snet.OnWrite = func(conn int, dir string, off int, b []byte) {
 			k := fmt.Sprintf("%d/%s", conn, dir)
 			d := decs[k]
@@ -568,10 +574,15 @@ func Run(sc *Scenario) (res *Result) {
 			if dir == "S2C" {
 				ep = "S"
 			}
-			for _, seg := range d.Feed(b) {
+			for i, seg := range d.Feed(b) {
+				firstOfConn := !hintChecked[k]
+				hintChecked[k] = true
 				ws.mu.Lock()
 				e := ws.describe(ep, seg)
 				ws.mu.Unlock()
+				if ep == "C" && firstOfConn && i == 0 && !refcodec.HintMatches(hintUser, seg.Nonce) {
+					e.Ok, e.Err = false, "undecodable: user hint in the nonce is not the documented one"
+				}
 				e.Fate = "deliver"
 				e.A = conn
 				if sc.NoTxLog == 0 || (sc.NoTxLog == 1 && !refcodec.IsAck(uint8(e.Pt))) {
